@@ -67,6 +67,39 @@ Proof.
         now rewrite be16_val by lia.
 Qed.
 
+(* the decoder's whole image: AT_KDF (24) is accepted with ANY length octet l, its value being (4l - 2) mod 256 octets
+   (uint8 arithmetic in the Go code); wf_akattr is the special case l = 1 that the setter produces *)
+Definition wfd_akattr (a : akattr) : Prop :=
+  if at_type a =? 24 then at_len a < 256 /\ at_res a = 0 /\ len (at_val a) = (4 * at_len a + 254) mod 256
+  else wf_akattr a.
+
+Lemma wf_wfd a : wf_akattr a -> wfd_akattr a.
+Proof.
+  unfold wfd_akattr. destruct (at_type a =? 24) eqn:E; [|auto]. intros (Ht & Hl & Hw). cbv zeta in Hw.
+  apply N.eqb_eq in E. rewrite E in Hw. change ((24 =? 11) || (24 =? 1) || (24 =? 2)) with false in Hw.
+  change ((24 =? 23) || (24 =? 3)) with false in Hw. change (24 =? 24) with true in Hw. cbv iota in Hw.
+  destruct Hw as (El & Er & Lv). split; [exact Hl|]. split; [exact Er|]. rewrite El. unfold len. rewrite Lv. reflexivity.
+Qed.
+
+Lemma wfd_bounds a : wfd_akattr a -> at_type a < 256 /\ at_len a < 256.
+Proof.
+  unfold wfd_akattr. destruct (at_type a =? 24) eqn:E.
+  - apply N.eqb_eq in E. intros (Hl & _). rewrite E. split; [lia|exact Hl].
+  - intros (Ht & Hl & _). auto.
+Qed.
+
+Lemma aka_dec_attr_rtd a tl :
+  wfd_akattr a -> aka_dec_attr (at_type a) (at_len a) (aka_attr_tail a ++ tl) = Ok (a, tl).
+Proof.
+  unfold wfd_akattr. destruct (at_type a =? 24) eqn:E; [|apply aka_dec_attr_rt].
+  destruct a as [t l r v]. cbn [at_type at_len at_res at_val] in *. apply N.eqb_eq in E. subst t. intros (Hl & -> & Lv).
+  unfold aka_dec_attr, aka_attr_tail. cbn [at_type at_len at_res at_val].
+  change ((24 =? 11) || (24 =? 1) || (24 =? 2)) with false. change ((24 =? 23) || (24 =? 3)) with false.
+  change ((24 =? 3) || (24 =? 23)) with false. change (24 =? 24) with true. cbv iota. cbn [app]. rewrite app_nil_r.
+  replace (4 * l + 256 - 2) with (4 * l + 254) by lia.
+  rewrite take_app by (unfold len in Lv; lia). reflexivity.
+Qed.
+
 (* strictly ascending attribute types *)
 Inductive asc : list akattr -> Prop :=
 | asc_nil : asc []
@@ -89,7 +122,7 @@ Proof.
 Qed.
 
 Lemma aka_dec_attrs_rt l : forall fuel acc,
-  Forall wf_akattr l -> asc l -> (forall x y, In x acc -> In y l -> at_type x < at_type y) ->
+  Forall wfd_akattr l -> asc l -> (forall x y, In x acc -> In y l -> at_type x < at_type y) ->
   (length (concat (map aka_attr_bytes l)) < fuel)%nat ->
   aka_dec_attrs fuel (concat (map aka_attr_bytes l)) acc = Ok (acc ++ l).
 Proof.
@@ -97,9 +130,9 @@ Proof.
   - destruct fuel; [cbn in Hf; lia|]. cbn. now rewrite app_nil_r.
   - destruct fuel as [|f]; [lia|]. inversion Hw as [|? ? Hwa Hwl]; subst.
     cbn [map concat] in *. rewrite aka_attr_bytes_eq in *. cbn [app aka_dec_attrs].
-    destruct Hwa as (Ht & Hl & Hrest).
+    destruct (wfd_bounds a Hwa) as [Ht Hl].
     rewrite !b2n_n2b_small by assumption.
-    rewrite aka_dec_attr_rt by (repeat split; assumption). cbn [bind].
+    rewrite aka_dec_attr_rtd by assumption. cbn [bind].
     rewrite aka_set_append by (intros x Hx; apply Hacc; [exact Hx|now left]).
     rewrite IH.
     + now rewrite <- app_assoc.
@@ -189,7 +222,7 @@ Proof. intros Hp Hn. unfold aka_marshal. now rewrite (aka_sort_perm_invariant l 
 
 (* ---------- EAP-AKA' packet ---------- *)
 Theorem aka_rt st rs attrs :
-  st < 256 -> rs < 65536 -> Forall wf_akattr attrs -> NoDup (map at_type attrs) ->
+  st < 256 -> rs < 65536 -> Forall wfd_akattr attrs -> NoDup (map at_type attrs) ->
   aka_unmarshal (aka_marshal st rs attrs) = Ok (EDAka st rs (aka_sort attrs)).
 Proof.
   intros Hst Hrs Hw Hn. unfold aka_unmarshal, aka_marshal. consify0. cbn [length]. decide_cmp.
@@ -208,7 +241,7 @@ Definition dom_eapdata (d : eapdata) : Prop :=
   | EDNone => True
   | EDIdentity x | EDNotification x | EDNak x => x <> []
   | EDExpanded vid vt _ => vid < 16777216 /\ vt < 4294967296
-  | EDAka st rs attrs => st < 256 /\ rs < 65536 /\ Forall wf_akattr attrs /\ NoDup (map at_type attrs)
+  | EDAka st rs attrs => st < 256 /\ rs < 65536 /\ Forall wfd_akattr attrs /\ NoDup (map at_type attrs)
   end.
 
 Definition norm_eapdata (d : eapdata) : eapdata :=
